@@ -51,7 +51,6 @@ type pState struct {
 	done bool
 }
 
-
 // advance performs the next API call of the caller's script.
 func (p *pState) advance() (op string) {
 	n := p.n
